@@ -46,6 +46,8 @@ TraceRoc ==
              <<"C15.raised", e.exc = "">>,
              <<"C15.thresholds_finite", e.exc # "" \/ ok>>,
              <<"C15.equal_lengths", ~ok \/ lens>>,
+             (* a query: neither the object nor the arrays the caller passed in are modified     *)
+             <<"C15.inputs_untouched", ~ok \/ r.inputs_untouched>>,
              <<"C15.rates_are_rates_at_thresholds", ~ok \/ ~lens \/ \A i \in 1..n :
                   /\ REq(r.fnr[i], R(r.cm[i][2], NPos(o))) /\ REq(r.fpr[i], R(r.cm[i][3], NNeg(o)))
                   /\ r.cm[i][1] + r.cm[i][2] = NPos(o) /\ r.cm[i][3] + r.cm[i][4] = NNeg(o)>>,
